@@ -85,6 +85,7 @@ type Ctx struct {
 	usedAxioms  map[string]bool
 	warned      map[string]bool
 	needStrSub  bool
+	paramTerms  []Value
 	smtCache    []string
 	usesBits    bool
 	epochs      int
